@@ -416,6 +416,20 @@ func checkC02(r *kit.Run) {
 			r3[k] = v
 		}
 	}
+	// a time ceiling hit while sixteen workers share a loaded machine says little: such programs
+	// run once more, one at a time, with a ceiling of 120 s; only that verdict counts
+	retried := 0
+	for _, p := range progs {
+		if r12[p.ID].Abort == "timeout" {
+			retried++
+			r12[p.ID] = runBatch(r, []plProg{p}, "12", 120000, memMB)[p.ID]
+		}
+		if r3[p.ID].Abort == "timeout" {
+			retried++
+			r3[p.ID] = runBatch(r, []plProg{p}, "3", 120000, memMB)[p.ID]
+		}
+	}
+	r.Set("timeouts_retried_alone", retried)
 	// traces for TLC
 	var lines [][]byte
 	var ids []int
@@ -552,6 +566,19 @@ func checkC02(r *kit.Run) {
 				err := cmd.Run()
 				timedOut := ctx.Err() != nil
 				cancel()
+				if timedOut {
+					// slow or hanging? the machine may be loaded: once more, alone in this goroutine, with a long limit
+					ctx2, cancel2 := context.WithTimeout(context.Background(), 150*time.Second)
+					cmd = exec.CommandContext(ctx2, cueBinary, st[1:]...)
+					cmd.Dir = dir
+					cmd.Env = append(os.Environ(), "CUE_CACHE_DIR="+filepath.Join(dir, ".cache"), "HOME="+dir, "GOMAXPROCS=2")
+					so.Reset()
+					se.Reset()
+					cmd.Stdout, cmd.Stderr = &so, &se
+					err = cmd.Run()
+					timedOut = ctx2.Err() != nil
+					cancel2()
+				}
 				e := plEvent{R: run, St: st[0], Oc: "ok", Out: so.String() + se.String()}
 				if ee, ok := err.(*exec.ExitError); ok {
 					switch {
@@ -622,7 +649,7 @@ func checkC02(r *kit.Run) {
 	r.Set("exports_ok", completeOK)
 	r.Set("stage_outcomes_run1", stageCount)
 	r.Set("canaries_rejected", canaries)
-	r.Set("rule", "every input is run three times (used context, fresh context, another process) in worker processes under a 10 s / 2 GB ceiling; the recorded stage events (stage, ok/err, digest of the printed output or error text) of all three runs form one trace, validated by TLC against PipelineTrace.tla: stages in order, only ok/err outcomes, the stage-consistency rules of Pipeline.tla, all three runs complete and equal event by event; non-trivial = inputs that parse")
+	r.Set("rule", "every input is run three times (used context, fresh context, another process) in worker processes under a 10 s (on a first timeout: alone with 120 s) / 2 GB ceiling; the recorded stage events (stage, ok/err, digest of the printed output or error text) of all three runs form one trace, validated by TLC against PipelineTrace.tla: stages in order, only ok/err outcomes, the stage-consistency rules of Pipeline.tla, all three runs complete and equal event by event; non-trivial = inputs that parse")
 }
 
 // the hand-picked programs of Pipeline.tla are always sent through the command line too
